@@ -1,6 +1,6 @@
 """C12 - results depend only on the input: no state leaks, no hash-seed dependence.
 
-histories  every sequence of <=2 (quick) / <=3 (thorough) inputs from a 17-input alphabet (valid modules with / without
+histories  every sequence of <=2 (quick) / <=3 (thorough) inputs from a 18-input alphabet (valid modules with / without
            MODULE-IDENTITY and REVISION, with an enterprise OID, with a table, SMIv1 style, importing another input;
            lexical error on line 4, unterminated MACRO, text ending inside a comment, truncated text, syntax error after
            a multi-line string, duplicate symbol) fed to ONE parser, ONE symbol-table + code generator pair (JSON and
@@ -23,7 +23,7 @@ from mc import core, env
 from mc.env import error
 
 BOUNDS = {
-    'quick': 'all sequences of <=2 inputs (17-input alphabet) on parser / generators / compiler; triple repetition; 8 hash seeds',
+    'quick': 'all sequences of <=2 inputs (18-input alphabet) on parser / generators / compiler; triple repetition; 8 hash seeds',
     'thorough': 'all sequences of <=3 inputs; 64 hash seeds',
 }
 ASSUMPTIONS = ['time stamp, host and user lines of generated output are masked',
@@ -155,7 +155,19 @@ rhoMode OBJECT-TYPE SYNTAX Mode MAX-ACCESS read-write STATUS current DESCRIPTION
 END
 """
 
-INPUTS = [('V_MODE_INT', 'PI-MIB', V_MODE_INT), ('V_MODE_OCT', 'RHO-MIB', V_MODE_OCT), ('E_UNKTYPE', 'NU-MIB', E_UNKTYPE), ('E_UNKPARENT', 'XI-MIB', E_UNKPARENT), ('E_GEN', 'OMICRON-MIB', E_GEN),
+V_SAMENAMES = """SIGMA-MIB DEFINITIONS ::= BEGIN
+IMPORTS OBJECT-TYPE, Integer32, enterprises FROM SNMPv2-SMI;
+sigmaRoot OBJECT IDENTIFIER ::= { enterprises 1515 }
+gammaValue OBJECT-TYPE SYNTAX Integer32 MAX-ACCESS read-only STATUS current DESCRIPTION "scalar named like a column of GAMMA-MIB" ::= { sigmaRoot 1 }
+gammaEntry OBJECT-TYPE SYNTAX Integer32 MAX-ACCESS read-only STATUS current DESCRIPTION "scalar named like a row of GAMMA-MIB" ::= { sigmaRoot 2 }
+gammaTable OBJECT IDENTIFIER ::= { sigmaRoot 3 }
+alphaObj OBJECT IDENTIFIER ::= { sigmaRoot 4 }
+Mode ::= INTEGER (0..7)
+sigmaMode OBJECT-TYPE SYNTAX Mode MAX-ACCESS read-write STATUS current DESCRIPTION "o" DEFVAL { 3 } ::= { sigmaRoot 5 }
+END
+"""
+
+INPUTS = [('V_SAMENAMES', 'SIGMA-MIB', V_SAMENAMES), ('V_MODE_INT', 'PI-MIB', V_MODE_INT), ('V_MODE_OCT', 'RHO-MIB', V_MODE_OCT), ('E_UNKTYPE', 'NU-MIB', E_UNKTYPE), ('E_UNKPARENT', 'XI-MIB', E_UNKPARENT), ('E_GEN', 'OMICRON-MIB', E_GEN),
           ('V_REV', 'ALPHA-MIB', V_REV), ('V_NOID', 'BETA-MIB', V_NOID), ('V_TBL', 'GAMMA-MIB', V_TBL), ('V_V1', 'DELTA-MIB', V_V1),
           ('V_IMP', 'EPSILON-MIB', V_IMP), ('V_NOENT', 'ZETA-MIB', V_NOENT), ('E_LEX4', 'ETA-MIB', E_LEX4),
           ('E_MACRO', 'THETA-MIB', E_MACRO), ('V_COMMENT', 'IOTA-MIB', V_COMMENT), ('E_TRUNC', 'KAPPA-MIB', E_TRUNC),
